@@ -89,6 +89,15 @@ def cases(tier):
                             a.update(con=con, cgrid=cg, include_first=inf, include_last=inl, method=meth, M=M, N=3)
                             if forbid(a): continue
                             add(a, ["con", "cgrid", "include_first", "include_last", "method", "M", "N"])
+    # a constraint with include_first=False / include_last=False declared BEFORE another one (whose end-point instances stay)
+    for con in ("x_le", "xu_between", "xt_le"):
+        for cg in (None, "integrator"):
+            for meth in DIMS["method"]:
+                for inf, inl in ((False, True), (True, False), (False, False)):
+                    for sec in ("u_between", "bcf"):
+                        a = {n: DIMS[n][0] for n in DIMS}
+                        a.update(con=con, cgrid=cg, include_first=inf, include_last=inl, method=meth, second=sec, M=2, N=2)
+                        add(a, ["con", "cgrid", "include_first", "include_last", "method", "second"])
     # algebraic values at the final node / off the collocation points: both schemes x degree x M x grid option
     for sc in ("radau", "legendre"):
         for dg in (1, 2, 3):
